@@ -1,3 +1,32 @@
-import GenlmModel.Model.Basic
+import Batteries.Tactic.Alias
+import GenlmModel.Proofs.Mask
+import GenlmModel.Proofs.AddEosDerives
+/-! # C01 — the next-token mask is exactly the set of viable continuations
+The oracle `nextSet` the real `BoolCFGLM.p_next` is compared with is a verified decision procedure:
+for EVERY grammar (ε rules, unary cycles, useless symbols, empty language) and EVERY context. -/
 namespace Genlm.Props.C01
+variable {σ K : Type} [DecidableEq σ]
+
+/-- `t` is offered iff it is a terminal and `c ++ [t]` can be completed to a sentence -/
+theorem mask_is_viable_continuations (G : CFG σ K) (c : List σ) (t : σ) :
+    t ∈ nextSet G c ↔ t ∈ G.V ∧ ∃ y, Derives G G.S (c ++ t :: y) := Genlm.nextSet_spec G c t
+
+/-- a context that no sentence extends gets the empty mask -/
+theorem mask_empty_of_not_viable (G : CFG σ K) (c : List σ) (h : ¬ ∃ y, Derives G G.S (c ++ y)) :
+    nextSet G c = [] := Genlm.nextSet_empty_of_not_viable G c h
+
+theorem viable_decides (G : CFG σ K) (c : List σ) : viable G c = true ↔ ∃ y, Derives G G.S (c ++ y) :=
+  Genlm.viable_spec G c
+
+theorem sentence_decides (G : CFG σ K) (c : List σ) : derivesB G c = true ↔ Derives G G.S c :=
+  Genlm.derivesB_spec G c
+
+/-- EOS wrapping at the level of derivations (the grammar the driver builds) -/
+alias eos_wrapping := Genlm.addEOS_derives_driver
+/-- EOS is offered exactly when the context is a sentence of the original grammar -/
+alias eos_offered_iff_sentence := Genlm.eos_mem_nextSet
+/-- an ordinary token is offered exactly when the context extended by it is a viable prefix of the original grammar -/
+alias token_offered_iff_viable := Genlm.mem_nextSet_addEOS
+/-- rule order is irrelevant -/
+alias rule_order_irrelevant := Genlm.Derives_perm
 end Genlm.Props.C01
